@@ -33,6 +33,9 @@ fn dispatch(prop: &str, rec: &mut Rec) {
         "C08" => checks::c08::run(rec),
         "C09" => checks::c09::run(rec),
         "C10" => checks::c10::run(rec),
+        "C12" => checks::c12::run(rec),
+        "C13" => checks::c13::run(rec),
+        "C15" => checks::c15::run(rec),
         "C11" => checks::c11::run(rec),
         _ => {
             eprintln!("unknown property {}", prop);
